@@ -522,15 +522,17 @@ End Global.
 Definition irejected (cls : list fclass) (reg : rstmt) (gp : list gstmt) (c : cfg) (e : event) (s : fstate) : option (bool * fstate) :=
   gexec (ichain cls reg c e) FUEL gp false s.
 
-(** WithContext._local_trace: [r] = the result of the wrapped trace function is not None;
-    Some true = the closure itself is returned (the frame keeps a WithContext trace function) *)
-Fixpoint wexec (n : nat) (p : list wstmt) (r : bool) : option bool :=
+(** WithContext._local_trace.  [prev] = the closure's next_trace is not None when it is called, [r] = the result of
+    the wrapped trace function is not None.  Some true = the closure itself is returned (the frame keeps a
+    WithContext trace function); `assert next_trace` raises (stuck) when [prev] is false. *)
+Fixpoint wexec (n : nat) (p : list wstmt) (prev r : bool) : option bool :=
   match n with
   | O => None
   | S n =>
     match p with
     | [] => Some false
-    | WIfAssignNextTrace body :: rest => if r then wexec n body r else wexec n rest r
+    | WAssertNextTrace :: rest => if prev then wexec n rest prev r else None
+    | WIfAssignNextTrace body :: rest => if r then wexec n body r r else wexec n rest r r
     | WReturn WLocalTrace :: _ => Some true
     | WReturn WNone :: _ => Some false
     | WReturn WNextTrace :: _ => None        (* would hand Pdb's own trace function to the frame *)
